@@ -13,13 +13,37 @@ COMMON_ASSUMPTIONS = [
     "the frequency sketch is an input of CacheD.tla (logged estimates); Sketch.tla is bound separately",
 ]
 
+
+def profs(spec, mult):
+    return [{"profile": name, "count": max(1, int(n * mult)), "seed_offset": 1000 * i} for i, (name, n) in enumerate(spec)]
+
+PROFILES = {
+    "C01": [("pressure", 15), ("mix", 8), ("ttl", 5)],
+    "C02": [("reads", 12), ("mix", 8), ("burst", 6)],
+    "C03": [("seq", 20), ("ttl", 8)],
+    "C04": [("burst", 12), ("mix", 8), ("ttl", 5)],
+    "C05": [("burst", 15), ("mix", 8), ("pressure", 5)],
+    "C06": [("pressure", 25), ("mix", 5)],
+    "C07": [("ttl", 10), ("mix", 8), ("burst", 8)],
+    "C08": [("ttl", 12), ("mix", 8), ("seq", 6)],
+    "C09": [("ttl", 15), ("seq", 8), ("reads", 5)],
+    "C10": [("ttl", 20), ("seq", 8)],
+    "C11": [("burst", 20), ("mix", 8)],
+    "C13": [("shutdown", 25), ("mix", 5)],
+    "C15": [("reads", 25), ("mix", 5)],
+    "C16": [("stats", 15), ("allhit", 6), ("mix", 6)],
+    "C17": [("mix", 10), ("pressure", 6), ("ttl", 6)],
+}
+
 PLANS = {}
-for p in ["C01", "C02", "C03", "C04", "C05", "C06", "C07", "C08", "C09", "C10", "C11", "C13", "C15", "C16", "C17"]:
+for p in PROFILES:
     PLANS[p] = {
         "mc": {"quick": [MC_L1], "thorough": [MC_L1, MC_L1_NOFIX]},
-        "profiles": mix(25, 150),
+        "profiles": {"quick": profs(PROFILES[p], 1), "thorough": profs(PROFILES[p], 8)},
         "trace_spec": "TraceCacheD",
         "assumptions": COMMON_ASSUMPTIONS,
         "rule": "a case is one scenario (configuration + caller programs + schedule seed) run under the deterministic scheduler; "
                 "every step of it is one conformance check and one evaluation of the property's judge",
     }
+PLANS["C13"]["hang_is_violation"] = True
+PLANS["C15"]["hang_is_violation"] = True
